@@ -74,7 +74,7 @@ def _work(payload):
 
 def run_items(ctx, label, items):
     ctx.phase("%s (%d programs)" % (label, len(items)))
-    nch = max(1, min(len(items), core.NPROC * 6))
+    nch = max(1, min(len(items), core.NPROC * 2))
     for cnt, maxlen, fails in core.pmap(_work, [items[k::nch] for k in range(nch)]):
         ctx.count("evaluations", cnt)
         ctx.counters["max_program_length"] = max(ctx.counters.get("max_program_length", 0), maxlen)
